@@ -4,13 +4,11 @@ _E3_NOTE = ("Engine E3: a real miner chain booted in-process from the shipped co
             "an outcome), real RocksDB state DB, real contracts, miniredis as the transaction pool, a genesis magic block of 5 derived miners and 2 "
             "derived sharders whose keys the harness owns (it switches node.Self between miners). N2N sends go to a closed local port and fail at once. "
             "Transaction timestamps are real time; no oracle reads the clock.")
-WIP["C45"] = dict(
+CHECKS["C45"] = dict(
     level="exploration", engine="E3",
     technique="property-based differential testing: the real block generator against the real block verifier and an independent replay, over generated transaction pools, previous states and round numbers, plus structural invariants of the generated block",
     level_text="Generated miniredis pools (per sender lists of nonce offset / kind / fee rank: sends, faucet pours, insufficient fee, overdraw, expensive and cheap failing contract calls, client calls of built-in function names, unknown functions, data, stale time, bad signature; duplicate nonces, future nonces that turn current inside the block, chains of expensive calls at the block cost limit, re-put duplicates, leftovers of the previous round) over generated previous states and round numbers that hit the built-in transaction schedules are given to the real GenerateRoundBlock; the block is encoded as on the wire, decoded into a fresh object and verified with the real VerifyRoundBlock as another miner; roots, change count, outputs and statuses must agree between generator, verifier and an isolated replay, and the block must have no hash twice, consecutive nonces per sender, cost <= max block cost and each built-in function at most once.",
     level_note=_E3_NOTE + " Generator and verifier share one process (same state DB = 'the same previous state', same global state cache, read through the parent hash only). Previous states are genesis plus 0-4 harness-executed transactions plus up to 2 generated blocks (3 in the thorough tier).",
     parts=[dict(pkg="0chain.net/miner", run="^TestC45_GenerateVerify$", quick=400, thorough=8000, floor=20,
-                timeout_quick=900, timeout_thorough=3000,
-                env={"VERIF_KNOWN_FINDINGS": "/verif/wip/agents/b45/known_findings.with_proposed.json"})],
-    assumptions=["the proposed known findings of /verif/wip/agents/b45/proposed_known_findings.json are in force (part env VERIF_KNOWN_FINDINGS); drop the env line once they are decided"],
+                timeout_quick=900, timeout_thorough=3000)],
 )
